@@ -435,8 +435,36 @@ def overlapped(base, name='two-threads', k=3, threads=3, rounds=2, n=(90, 2000),
                     f'oracle = the same cases checked one after the other')
 
 
+_ENV = {'noisy': False}
+
+
+def _noisy_environment():
+    """The other process-wide configuration an application may run the library under: logging enabled down to level 1 with a
+    handler that renders every record (so lazily formatted log arguments ARE formatted), and warnings raised from inside the
+    library turned into errors. Neither is an operation on any object: every property must hold under it exactly as under the
+    default configuration. Odd-numbered shards of every sub-check run this way (evidence: classes 'environment:*')."""
+    import logging
+    import warnings
+    if _ENV['noisy']:
+        return
+
+    class _Render(logging.Handler):
+        def emit(self, record):
+            try:
+                record.getMessage()
+            except Exception:
+                pass
+    root = logging.getLogger()
+    root.setLevel(1)
+    root.addHandler(_Render())
+    warnings.filterwarnings('error', module=r'pytoniq_core(\.|$)')
+    _ENV['noisy'] = True
+
+
 def _shard_worker(args):
     prop_id, sub_name, shard, nshards, tier, seed, shrink_s = args
+    if shard % 2 == 1 and os.environ.get('VERIF_PLAIN_ENV') != '1':
+        _noisy_environment()
     import importlib
     mod = importlib.import_module(f'harness.props.{prop_id.lower()}')
     sub = {s.name: s for s in mod.SUBCHECKS}[sub_name]
@@ -461,6 +489,10 @@ def _shard_worker(args):
         err = ''.join(traceback.format_exception(e))[-3000:]
     d = st.to_dict()
     d.update(sub=sub_name, shard=shard, status=status, error=err, wall=time.time() - t0)
+    envname = 'verbose-logging+library-warnings-are-errors' if _ENV['noisy'] else 'default'
+    d['classes']['environment:' + envname] = d['classes'].get('environment:' + envname, 0) + st.evaluations
+    for f in d['failures']:
+        f['env'] = envname
     return d
 
 
@@ -666,7 +698,7 @@ def run_property(prop_id, tier, seed, only=None):
         path = os.path.join(OUT, 'replays', f'{prop_id}-{f["sub"]}-{h}.json')
         with open(path, 'w') as fh:
             json.dump({'property': prop_id, 'subcheck': f['sub'], 'signature': sig, 'detail': f['detail'],
-                       'seed': seed, 'tier': tier, 'mode': 'O' if OPTIMIZED else 'normal', 'case': f['case']},
+                       'seed': seed, 'tier': tier, 'mode': 'O' if OPTIMIZED else 'normal', 'env': f.get('env', 'default'), 'case': f['case']},
                       fh, indent=1, default=_json_default)
         replay_paths.append((sig, path, f))
 
@@ -743,6 +775,8 @@ def replay(prop_id, path):
         r = json.load(f)
     if r.get('mode') == 'O' and not OPTIMIZED:
         os.execv(sys.executable, [sys.executable, '-O', os.path.join(VERIF, 'run.py'), prop_id, '--replay', path])
+    if r.get('env', 'default') != 'default':
+        _noisy_environment()
     sub = {s.name: s for s in mod.SUBCHECKS}[r['subcheck']]
     known = load_known(prop_id)
     try:
